@@ -4,6 +4,7 @@ connection does with the bytes that follow (src/server/server.rs `handle_connect
 SHA-256 is opaque: `expected` is just a 32-byte string.
 -/
 import AnyTLS.Model.Session
+import AnyTLS.Gen
 
 namespace AnyTLS
 
@@ -31,5 +32,34 @@ def serverConnFrames (expected input : Bytes) : Option (List Frame) :=
   match authServer expected input with
   | .accept n => some (decodeAll (input.drop n)).1
   | _ => none
+
+/-! ### the gate in `handle_connection`
+
+What the connection task sees while it authenticates: bytes arrive, or — when the call sits under a timer — the
+timer fires.  A dropped `authenticate_client` takes the bytes its `read_exact` calls have consumed with it (while the
+verdict is `needMore` that is every byte received so far), and the retry reads "the first 32 bytes" from wherever the
+stream then is.  Which shape the code has is regenerated from the source (`Gen.authGate`). -/
+
+inductive ConnEv where
+  | bytes (b : Bytes)
+  | tick
+  deriving DecidableEq, Repr
+
+def bytesOf : List ConnEv → Bytes
+  | [] => []
+  | .bytes b :: es => b ++ bytesOf es
+  | .tick :: es => bytesOf es
+
+/-- verdict of the gate; `acc` = bytes consumed by the call in progress -/
+def gateRun (k : Gen.AuthGate) (expected : Bytes) : (acc : Bytes) → List ConnEv → AuthOut
+  | acc, [] => authServer expected acc
+  | acc, .tick :: es =>
+    match authServer expected acc with
+    | .needMore => gateRun k expected (match k with | .bareOnce => acc | .timedRetry => []) es
+    | v => v
+  | acc, .bytes b :: es =>
+    match authServer expected acc with
+    | .needMore => gateRun k expected (acc ++ b) es
+    | v => v
 
 end AnyTLS
